@@ -271,6 +271,49 @@ func c16Check(c svcCfg) [][2]string {
 	if x.Panic != nil {
 		fails = append(fails, [2]string{"panic|" + simrt.PanicKey(x.Panic), x.Panic.Value + "\n" + x.Panic.Stack + " [" + c.String() + "]"})
 	}
+	if c.Flip && c.Brand == "brand" && c.Model == "model" && c.Type == "type" && c.Serial == "serial" && c.ID == "id-1" && len(c.Cats) == 1 && !c.CatsNil && c.SKI == "aabbccddeeff00112233445566778899aabbccdd" {
+		// (the TXT content does not matter for this one: the configurations with default strings only)
+		fails = append(fails, c16FlipTwice(c)...)
+	}
+	return fails
+}
+
+// c16FlipTwice: auto-accept is changed twice in a row while the service is announced; whatever goroutines the manager
+// uses to re-announce, every schedule (two preemptions) must leave the value set last on the network.
+func c16FlipTwice(c svcCfg) [][2]string {
+	e := &simrt.Explorer{Cfg: simrt.Config{MaxSteps: 100000, BranchAfterMark: true, BranchOnly: []string{"SetAutoAccept", "AnnounceMdnsEntry", "main"}}, Bounds: simrt.B(2, 0, 0), Body: func() {
+		simrt.ClearTraceHooks()
+		m1 := mdns.NewMDNS(c.SKI, c.Brand, c.Model, c.Type, c.Serial, cats(c), c.ID, "svc-1", c.Port, nil, mdns.MdnsProviderSelectionGoZeroConfOnly)
+		m1.SetAutoAccept(c.Auto)
+		if err := m1.Start(&rec{name: "m1"}); err != nil {
+			return
+		}
+		simrt.Quiesce()
+		simrt.Mark()
+		m1.SetAutoAccept(!c.Auto)
+		m1.SetAutoAccept(c.Auto)
+		simrt.Quiesce()
+		var txt []string
+		for _, e := range fakezeroconf.TheEther().Registered {
+			if e.Instance == "svc-1" {
+				txt = e.Text
+			}
+		}
+		reg := ""
+		for _, t := range txt {
+			if strings.HasPrefix(t, "register=") {
+				reg = t[len("register="):]
+			}
+		}
+		if reg != fmt.Sprint(c.Auto) {
+			simrt.Fail("C16|register-flag-mismatch|after-two-flips", "auto-accept was set to %v and then to %v while announced; the announcement on the network ends with register=%s", !c.Auto, c.Auto, reg)
+		}
+	}}
+	e.Explore(nil)
+	var fails [][2]string
+	for _, f := range e.SortedFound() {
+		fails = append(fails, [2]string{f.Key, f.Msg + " [" + c.String() + "]"})
+	}
 	return fails
 }
 
